@@ -171,6 +171,46 @@ Proof. exact posn_word_probs_sum_one. Qed.
 Theorem balanced_monomers : forall (R : Type) (o : fld_ops R), fld_laws o -> forall (len : nat) (words : list (list nat)) (mons : list (list R)), same_length len words -> balanced o (length words) (vget o (posn_word_probs o words mons)) (get o (mpm_posn o (length words) words (inst_mask words) mons)).
 Proof. exact posn_balanced. Qed.
 
+(** GeneralStationary: if the requirement of SOME dependent column is negative the model refuses (None = ParameterOutOfBoundsError), whichever column it is *)
+Theorem general_stationary_refuses : forall (R : Type) (o : fld_ops R) (neg near0 : R -> bool), (forall x : R, near0 x = true -> neg x = false) -> forall (n : nat) (mp : list R) (m : nat) (js : list nat) (Rl : lmat R), NoDup js -> ~ In m js -> (forall j : nat, In j js -> j < n) -> (exists b : nat, In b js /\ neg (gs_required o n (vget o mp) (get o Rl) b) = true) -> gs_loop o neg near0 n mp (map (pair m) js) Rl = None.
+Proof. exact gs_loop_refuses. Qed.
+
+(** GeneralStationary: when the guard passes for every dependent column, EVERY column j has Σ_i π_i R_ij = Σ_k R_jk π_k *)
+Theorem general_stationary_columns_balanced : forall (R : Type) (o : fld_ops R), fld_laws o -> forall neg near0 : R -> bool, (forall x : R, near0 x = true -> neg x = false) -> forall (n : nat) (mp : list R) (m : nat) (js : list nat) (Rl Rf : lmat R), NoDup js -> ~ In m js -> (forall j : nat, In j js -> j < n) -> m < n -> (forall b : nat, b < n -> b <> m -> In b js) -> (forall b : nat, In b js -> get o Rl m b = fzero o) -> vget o mp m <> fzero o -> gs_loop o neg near0 n mp (map (pair m) js) Rl = Some Rf -> forall j : nat, j < n -> gs_required o n (vget o mp) (get o Rf) j = fzero o.
+Proof. exact gs_column_balance. Qed.
+
+(** column balance of R is exactly πQ = 0 for StationaryQ.calcQ — no reversibility needed *)
+Theorem column_balance_gives_stationarity : forall (R : Type) (o : fld_ops R), fld_laws o -> forall (n : nat) (wp : nat -> R) (Rm : fmat R), (forall j : nat, j < n -> gs_required o n wp Rm j = fzero o) -> stationary o n wp (calcQ_f o n wp (hadamard o Rm (fun _ j : nat => wp j))).
+Proof. exact column_balance_stationary. Qed.
+
+(** assembled GeneralStationary model: zero rows, πQ = 0 without detailed balance, calibration *)
+Theorem general_stationary_is_stationary : forall (R : Type) (o : fld_ops R), fld_laws o -> forall neg near0 : R -> bool, (forall x : R, near0 x = true -> neg x = false) -> forall (n : nat) (mp : list R) (m : nat) (js : list nat) (Rl Rf : lmat R), NoDup js -> ~ In m js -> (forall j : nat, In j js -> j < n) -> m < n -> (forall b : nat, b < n -> b <> m -> In b js) -> (forall b : nat, In b js -> get o Rl m b = fzero o) -> (forall a : nat, a < n -> get o Rl a a = fzero o) -> vget o mp m <> fzero o -> gs_loop o neg near0 n mp (map (pair m) js) Rl = Some Rf -> let Q := get o (calcQ_stationary o n mp (mpm_simple o n mp) Rf) in rate_rows_zero o n Q /\ stationary o n (vget o mp) Q /\ (sumn o n (fun i : nat => fmul o (vget o mp i) (row_total o n (hadamard o (get o Rf) (get o (mpm_simple o n mp))) i)) <> fzero o -> calibrated o n (vget o mp) Q).
+Proof. exact general_stationary_model. Qed.
+
+(** GeneralStationary: accepted parameter vectors give non-negative exchangeabilities (hence non-negative off-diagonals of Q by Q_offdiag_nonneg) *)
+Theorem general_stationary_nonneg : forall (R : Type) (o : fld_ops R) (le : R -> R -> Prop), (forall a b : R, le (fzero o) a -> le (fzero o) b -> le (fzero o) (fmul o a b)) -> (forall a : R, le (fzero o) a -> le (fzero o) (finv o a)) -> forall neg near0 : R -> bool, (forall x : R, near0 x = true -> neg x = false) -> (forall x : R, neg x = false -> le (fzero o) x) -> forall (n : nat) (mp : list R) (m : nat) (js : list nat) (Rl Rf : lmat R), NoDup js -> ~ In m js -> (forall j : nat, In j js -> j < n) -> m < n -> (forall a b : nat, a < n -> b < n -> le (fzero o) (get o Rl a b)) -> le (fzero o) (vget o mp m) -> gs_loop o neg near0 n mp (map (pair m) js) Rl = Some Rf -> forall a b : nat, a < n -> b < n -> le (fzero o) (get o Rf a b).
+Proof. exact gs_exchangeabilities_nonneg. Qed.
+
+(** ns_substitution_model.General: calibrated generator for every parameter vector; every scaling-and-squaring Taylor P is row-stochastic *)
+Theorem general_model_free_rates : forall (R : Type) (o : fld_ops R), fld_laws o -> forall (n : nat) (params : list R) (pick : list (list nat)) (wpl : list R), (forall a : nat, a < n -> nth a (nth a pick nil) 0 = 0) -> let Rl := take_pick o n params pick in let Ql := calcQ_general o n wpl Rl in rate_rows_zero o n (get o Ql) /\ (sumn o n (fun i : nat => fmul o (vget o wpl i) (row_total o n (get o Rl) i)) <> fzero o -> calibrated o n (vget o wpl) (get o Ql)) /\ (forall (t : R) (s terms : nat), row_stochastic o n (get o (expm_ss o n (lscale o n t Ql) s terms))).
+Proof. exact general_pick_model. Qed.
+
+(** the variant with the feasibility guard moved out of the loop accepts a vector the model refuses and returns a negative rate (witness over Qc) *)
+Theorem guard_after_loop_variant_unsound : gs_exchangeability Examples.Fq Qc_neg Qc_is0 4 Examples.pi_eq Examples.bad9 Examples.gs_pick Examples.gs_lic = None /\ (exists Rf : lmat Qcanon.Qc, gs_exchangeability_guard_after_loop Examples.Fq Qc_neg Qc_is0 4 Examples.pi_eq Examples.bad9 Examples.gs_pick Examples.gs_lic = Some Rf /\ Qc_neg (get Examples.Fq Rf 3 0) = true).
+Proof. exact Examples.gs_guard_after_loop_unsound. Qed.
+
+(** maths.util.ratios_to_proportions: the proportions add up to the total for EVERY ratio vector *)
+Theorem discrete_partition_sums_to_total : forall (R : Type) (o : fld_ops R), fld_laws o -> forall (fuel : nat) (total : R) (params : list R), suml o (ratios_to_proportions o fuel total params) = total.
+Proof. exact ratios_to_proportions_sum. Qed.
+
+(** every row of a BH/DT transition matrix (PsubMatrixDefn: one partition per row) sums to one *)
+Theorem discrete_psub_rows_sum_to_one : forall (R : Type) (o : fld_ops R), fld_laws o -> forall ratios : list R, suml o (psub_row o ratios) = fone o.
+Proof. exact psub_row_sums_to_one. Qed.
+
+(** ... and is non-negative for non-negative ratios (ordered field) *)
+Theorem discrete_psub_entries_nonneg : forall (R : Type) (o : fld_ops R), fld_laws o -> forall le : R -> R -> Prop, le (fzero o) (fone o) -> (forall a b : R, le (fzero o) a -> le (fzero o) b -> le (fzero o) (fadd o a b)) -> (forall a b : R, le (fzero o) a -> le (fzero o) b -> le (fzero o) (fmul o a b)) -> (forall a : R, le (fzero o) a -> le (fzero o) (finv o a)) -> forall (fuel : nat) (total : R) (params : list R), le (fzero o) total -> Forall (fun r : R => le (fzero o) r /\ fadd o r (fone o) <> fzero o) params -> Forall (fun x : R => le (fzero o) x) (ratios_to_proportions o fuel total params).
+Proof. exact ratios_to_proportions_nonneg. Qed.
+
 (** Full statements that are NOT proved here (they need the limit of the
     series, i.e. real analysis of the matrix exponential): kept visible as
     definitions, covered by the numerical correspondence only.
